@@ -63,7 +63,7 @@ PROPS = {
         "exhaustive_note": "all 65,536 instruction words are enumerated (machine states per word are sampled)",
         "trusted": [
             "Lean re-implementations of Rust integer formatting ({:04x}, {:03b}, {} of i16)",
-            "REG trap output is modelled in --minimal mode only",
+            "the literal pieces of the normal-mode REG table (box drawing, ANSI styles, small-caps names of control characters) are copied from output.rs into Lace/Basic/Tables.lean and shared by specification and model; the columns are specified by the table's own header",
         ],
         "assumptions": [
             "RTI (todo!() in lace) is modelled as a panic on both sides and is outside the property",
@@ -126,7 +126,7 @@ PROPS["C03"] = {
              "Non-trivial: executed at least one instruction or was refused by the loader."),
     "trusted": [
         "Lean re-implementations of Rust integer formatting ({:04x}, {:03b}, {} of i16)",
-        "REG trap output is modelled in --minimal mode only (generated programs use REG only with --minimal)",
+        "the literal pieces of the normal-mode REG table are shared by specification and model (Lace/Basic/Tables.lean)",
         "stderr messages (exception text, LineTracker newlines) are not modelled",
     ],
     "assumptions": [
